@@ -88,7 +88,7 @@ LineNumber expected_line_number(const Hunk& hunk)
     return line;
 }
 
-Location locate_hunk(const std::vector<Line>& content, const Hunk& hunk, bool ignore_whitespace, LineNumber offset, LineNumber max_fuzz)
+Location locate_hunk(const std::vector<Line>& content, const Hunk& hunk, bool ignore_whitespace, LineNumber offset, LineNumber max_fuzz, LineNumber min_line)
 {
     // Make a first best guess at where the from-file range is telling us where the hunk should be.
     LineNumber offset_guess = expected_line_number(hunk) - 1 + offset;
@@ -158,14 +158,15 @@ Location locate_hunk(const std::vector<Line>& content, const Hunk& hunk, bool ig
             });
         };
 
-        // First look for the hunk in the forward direction
-        for (LineNumber line = offset_guess; static_cast<size_t>(line) < content.size(); ++line) {
+        // First look for the hunk in the forward direction. Lines before 'min_line' have already
+        // been written out by an earlier hunk, so the hunk can never be placed there.
+        for (LineNumber line = std::max(offset_guess, min_line); static_cast<size_t>(line) < content.size(); ++line) {
             if (hunk_matches_starting_from_line(line))
                 return { line, fuzz, line - offset_guess };
         }
 
         // Then look for it in the negative direction
-        for (LineNumber line = offset_guess - 1; line >= 0; --line) {
+        for (LineNumber line = offset_guess - 1; line >= min_line; --line) {
             if (hunk_matches_starting_from_line(line))
                 return { line, fuzz, line - offset_guess };
         }
